@@ -18,6 +18,7 @@ from .. import fsmodel
 from .common import fl
 
 PROP = "C18"
+FRESH_REPLAY = True      # counterexamples with a history are confirmed in a pristine interpreter
 METRIC_KEYS = ["tp", "sq"]
 KINDS = ["finite", "nan", "inf", "missing"]
 META = {
@@ -61,23 +62,26 @@ def _run_evaluator_case(case):
     mods, fopen = fsmodel.make_modules(fs)
     eb = dict(EXTRA_BUILTINS)
     eb["open"] = fopen
-    T = Twin(fakes=mods, ast_transformers=[Rewrite()], extra_builtins=eb)
-    P = T.panoptica
-    PA = T.mod("panoptica.panoptica_aggregator")
-    PS = T.mod("panoptica.panoptica_statistics")
-    Metric = P.Metric
     pre = z3.Int("pre")
+    ctx = {}
 
     def decode(mo):
         return {"what": "evaluator", "pre": EV_PRE[jsonable(pre, mo)]}
     h = H(PROP, case["name"], decode, replay_kind="evaluator", max_witnesses=8)
 
     def mk_ev(inst, glob):
+        P = ctx["P"]
         return P.Panoptica_Evaluator(expected_input=P.InputType.MATCHED_INSTANCE, instance_metrics=inst, global_metrics=glob, verbose=False)
 
     def body():
         fs.__init__()
         fs.dirs.add("/out")
+        # a pristine copy of the package per path: process-global state left by one history must not leak into the next explored path
+        T = Twin(fakes=mods, ast_transformers=[Rewrite()], extra_builtins=eb)
+        P = ctx["P"] = T.panoptica
+        PA = T.mod("panoptica.panoptica_aggregator")
+        PS = T.mod("panoptica.panoptica_statistics")
+        Metric = P.Metric
         op = EV_PRE[ENG.concretize(pre, 0, len(EV_PRE) - 1)]
         try:
             if op == "narrow_evaluator_reads_keys":
